@@ -35,19 +35,25 @@ impl<I: PollSyscall> PollSyscall for NioPollSyscall<I> {
         nfds: nfds_t,
         timeout: c_int,
     ) -> c_int {
-        let mut t = if timeout < 0 { c_int::MAX } else { timeout };
-        let mut x = 1;
+        // the moment the call has to return at the latest, `u64::MAX` means wait forever
+        let deadline = u64::try_from(timeout).map_or(u64::MAX, |ms| {
+            crate::common::get_timeout_time(Duration::from_millis(ms))
+        });
+        let mut x: u64 = 1;
         let mut r;
         // just check poll every x ms
         loop {
             r = self.inner.poll(fn_ptr, fds, nfds, 0);
-            if r != 0 || t == 0 {
+            if r != 0 {
                 break;
             }
-            _ = EventLoops::wait_event(Some(Duration::from_millis(t.min(x).try_into().expect("overflow"))));
-            if t != c_int::MAX {
-                t = if t > x { t - x } else { 0 };
+            // measure the time that is left with the clock: a wait slice may take longer
+            // than asked, counting nominal slices would let the overshoot add up
+            let left = deadline.saturating_sub(crate::common::now());
+            if left == 0 {
+                break;
             }
+            _ = EventLoops::wait_event(Some(Duration::from_nanos(left.min(x * 1_000_000))));
             if x < 16 {
                 x <<= 1;
             }
